@@ -321,3 +321,29 @@ _ADD6 = {
 for _k, (_t, _x) in _ADD6.items():
     CLAIMS[_k]['technique'] += _t
     CLAIMS[_k]['text'] += _x
+
+# rules of DESIGN.md 12.12 (round 5)
+_ADD7 = {
+ 'C01': ('; DFS copies agree; paired cursors', ' The two copies of the row handling in ?column_dfs agree up to renaming; the subscript and value cursors of the scalar loops of ?gstrs are aligned.'),
+ 'C02': ('; DFS copies agree; *pivrow / pivptr in sync; R5', ' DFS copies agree; at perm_r[*pivrow] = jcol the row number and the position name the same row (dataflow split on *usepr); R5 stale-alias rules run here as well.'),
+ 'C03': ('; DFS copies agree (LU and ILU); *pivrow / pivptr in sync; drop-row pointer fix-up', ' DFS copies agree; pivot row recorded is the row moved; the pointer fix-up after dropping covers exactly the columns of the supernode.'),
+ 'C04': ('; kernel index rules; DFS copies agree; *pivrow / pivptr in sync', ' The polynomial-domain kernel analysis and stride rules run here too (a wrong update decides which candidates are exactly zero); DFS copies agree; pivot row in sync.'),
+ 'C05': ('; kernel index rules; LD binding; conjugate branch', ' R12 and the stride rules; an array is addressed with the lda of its own store; the trans = C branches conjugate every element they use.'),
+ 'C06': ('; reuse branch keeps the workspace stack; conjugate branch', ' Nothing on the SamePattern_SameRowPerm branch of ?LUMemInit empties the stack; conjugate branches as in C05.'),
+ 'C07': ('; companion reservation', ' Room booked for USUB next to a UCOL growth suffices for every precision.'),
+ 'C08': ('; reuse branch keeps the workspace stack', ' As in C06.'),
+ 'C09': ('; reserved slot initialised', ' The fill position reserved for an empty ILU column is written before it is read.'),
+ 'C11': ('; fresh initialisation per folding pass; extents of r[] and c[]', ' rcmin / rcmax are re-initialised between the row and the column pass.'),
+ 'C12': ('; paired cursors; estimate is a magnitude; alternating vector', ' Cursor alignment in sp_?trsv; every store to *est in ?lacon2 is a magnitude by construction; the alternating test vector ramps over the zero-based index.'),
+ 'C13': ('; LD agreement and binding; estimate is a magnitude', ' B and X are addressed with their own leading dimensions; *est is a magnitude (FERR non-negative).'),
+ 'C14': ('; paired cursors; conjugate branch', ' As in C12 / C05.'),
+ 'C15': ('; DFS copies agree (ILU); ILU threshold guard; reserved slot', ' ilu_?column_dfs copies agree; pivot candidates need mag != 0 && mag >= thresh; reserved fill slot initialised.'),
+ 'C16': ('; precision purity of the d/z readers', ' No single-precision floating declaration in the double-precision readers.'),
+ 'C17': ('; inclusive DO loops', ' Every counted loop of mc64ad.c is inclusive.'),
+ 'C18': ('; no return before the screening', ' No return statement precedes the argument tests.'),
+ 'C19': ('; extents of r[] / c[] in the equilibration routines', ' r[] is indexed below the row count, c[] below the column count.'),
+ 'C20': ('; kernel index rules; copy helpers', ' R12 and the copy helpers of the in-place growth run here as well.'),
+}
+for _k, (_t, _x) in _ADD7.items():
+    CLAIMS[_k]['technique'] += _t
+    CLAIMS[_k]['text'] += _x
